@@ -15,6 +15,11 @@
     exactly the all-zero roots that the additions merged over.
 
   Not covered here: `NewDel*` (the deletion half, needs `calculateHashes` completeness).
+
+  `stump_add_updateData_nd`: the same conclusion for a hash that is not collision-free (`CR H` is
+  impossible for a finite hash type): from `NZ H` (parent hashes are never the zero hash), non-zero
+  leaves and the finite, decidable `NodesDistinct (F.addMany adds)` of `Proofs/NodesUnique.lean`;
+  `stump_add_updateData` is its corollary under `CR H`.
 -/
 import UtreexoVerif.Proofs.StumpAddPos
 import UtreexoVerif.Proofs.NodeCred
@@ -86,15 +91,34 @@ def stump_add_updateData_statement (H : Type) [DecidableEq H] [Hasher H] : Prop 
         ∀ h, h ∈ L ↔ (n.testBit h = true ∧ chunkHash F.slots h (2 * (n / 2 ^ (h + 1))) = zero ∧
           (n / 2 ^ (h + 1) + 1) * 2 ^ (h + 1) ≤ n + adds.length)
 
-theorem stump_add_updateData : stump_add_updateData_statement H := by
-  intro nonZero F s adds cr hnz hr hn hlt hnd hleaf S n R
+/-- **The addition part of C11 for a hash that is NOT collision-free.**  The same conclusion as
+`stump_add_updateData_statement`, from `NZ H` (parent hashes are never the zero hash), non-zero
+leaves, and the FINITE hypothesis `NodesDistinct (F.addMany adds)`: no non-zero hash sits at two
+places of the forest after the additions (decidable; a violation is an explicit collision).
+`Stump.add` collects `NewAdd` in a map keyed by hash, so this hypothesis is needed. -/
+theorem stump_add_updateData_nd (nz : NZ H) (nonZero : H) (F : Forest H) (s : Stump H)
+    (adds : List H) (hnz : nonZero ≠ (zero : H))
+    (hr : s.roots = F.roots) (hn : s.numLeaves = BitVec.ofNat 64 F.numLeaves)
+    (hlt : F.numLeaves + adds.length ≤ 2 ^ 63)
+    (hSnz : ∀ x : H, some x ∈ F.slots ++ adds.map some → x ≠ (zero : H))
+    (hd : NodesDistinct (F.addMany adds)) :
+    let S := F.slots ++ adds.map some
+    let n := F.numLeaves
+    let R := forestRows (n + adds.length)
+    ∃ upd td, s.add nonZero adds =
+        .ok (⟨(F.addMany adds).roots, BitVec.ofNat 64 (n + adds.length)⟩, upd, td) ∧
+      (∀ p h, (p, h) ∈ upd ↔ ∃ pos : Pos, p = encU R pos.1 pos.2 ∧ NewAddSpec n S (pos, h)) ∧
+      upd.Pairwise (fun a b => a.1 < b.1) ∧ (upd.map (·.2)).Nodup ∧
+      ∃ L : List Nat, td = L.map (fun h => encU R h (2 * (n / 2 ^ (h + 1)))) ∧ AscFrom 0 L ∧
+        ∀ h, h ∈ L ↔ (n.testBit h = true ∧ chunkHash F.slots h (2 * (n / 2 ^ (h + 1))) = zero ∧
+          (n / 2 ^ (h + 1) + 1) * 2 ^ (h + 1) ≤ n + adds.length) := by
+  intro S n R
   have hSlen : S.length = n + adds.length := by simp [S, n, Forest.numLeaves]
   have hR : R ≤ 63 := forestRows_le_63 hlt
   have hN : S.length ≤ 2 ^ R := by rw [hSlen]; exact forestRows_spec_le _
   have hS64 : S.length < 2 ^ 64 := by omega
-  have hSnz : ∀ x : H, some x ∈ S → x ≠ (zero : H) := fun x hx => (hleaf x hx).1
   have hf : Functional S := fun p p' h h1 h2 =>
-    isNode_functional cr S hS64 hnd (fun x hx => (hleaf x hx).2) hSnz p p' h h1 h2
+    isNode_functional_nd nz S hS64 hSnz hd p p' h h1 h2
   have hTR : TreeRows (BitVec.ofNat 64 n + BitVec.ofNat 64 adds.length) = H8 R := by
     rw [← BitVec.ofNat_add]; exact treeRows_eq_H8 hlt
   -- ToDestroy
@@ -104,7 +128,7 @@ theorem stump_add_updateData : stump_add_updateData_statement H := by
   obtain ⟨L, hd, hLasc, hLmem⟩ := rootsToDestroy_exact posFacts hR nonZero hnz adds.length n _
     F.roots (by rw [← hSlen]; exact hN) hzp hTR
   -- the loop
-  obtain ⟨upd', hloop, hc, hkeys, hmem⟩ := loop_exact posFacts cr.nonzero nonZero hnz S hSnz hf hR hN
+  obtain ⟨upd', hloop, hc, hkeys, hmem⟩ := loop_exact posFacts nz.nonzero nonZero hnz S hSnz hf hR hN
     adds F s [] adds.length rfl rfl hr hn (fun _ => hTR) (fun e he => by cases he) (by simp)
   refine ⟨sortHP (upd'.map (fun e => (e.2, e.1))), L.map (fun h => encU R h (2 * (n / 2 ^ (h + 1)))),
     ?_, ?_, ?_, ?_, L, rfl, hLasc, ?_⟩
@@ -143,6 +167,14 @@ theorem stump_add_updateData : stump_add_updateData_statement H := by
   · intro h
     rw [hLmem]
     simp only [decide_eq_true_eq]
+
+theorem stump_add_updateData : stump_add_updateData_statement H := by
+  intro nonZero F s adds cr hnz hr hn hlt hnd hleaf
+  exact stump_add_updateData_nd cr.toNZ nonZero F s adds hnz hr hn hlt (fun x hx => (hleaf x hx).1)
+    (nodesDistinct_of_CR cr (F.addMany adds)
+      (by show (F.slots ++ adds.map some).length < 2 ^ 64
+          simp only [List.length_append, List.length_map]; unfold Forest.numLeaves at hlt; omega)
+      hnd (fun x hx a b => (hleaf x (Forest.mem_liveLeaves.mp hx)).2 a b))
 
 /-- the pairs of the specification are nodes of the final forest (`Spec.Forest.nodes`) at the
 stated positions -/
